@@ -354,7 +354,7 @@ Theorem interleaved_exact ls sizes out :
 Proof.
   intros Hparts Hil. split.
   - apply (interleaved_within ls sizes out); [|exact Hil].
-    eapply Forall2_impl; [|exact Hparts]. intros l n [H _]. exact H.
+    clear Hil. induction Hparts as [|l n ls sizes [H _] _ IH]; constructor; assumption.
   - rewrite (interleaving_total ls out Hil). clear Hil.
     induction Hparts as [|l n ls sizes [_ H] _ IH]; [reflexivity|]. cbn [map zsum]. lia.
 Qed.
